@@ -187,6 +187,7 @@ class P2PConnection:
         "_connected",
         "_expected_sequence_number",
         "_last_response_time",
+        "_request_pending",
         "_response_waiter",
         "address",
         "disconnect_hook",
@@ -209,6 +210,7 @@ class P2PConnection:
         self._connected = False
 
         self._last_response_time: float = 0
+        self._request_pending = False
 
         self._ack_waiter: asyncio.Future[TAck | TNak] | None = None
         self._response_waiter: asyncio.Future[Telegram] = (
@@ -292,7 +294,9 @@ class P2PConnection:
                 return
             self._ack_waiter.set_result(telegram.tpci)
             return
-        if self._response_waiter.done():
+        if not self._request_pending or self._response_waiter.done():
+            # nothing was requested (yet) - an unsolicited frame must not
+            # answer the next request
             logger.warning(
                 "Received unexpected point-to-point telegram for %s: %s",
                 self.address,
@@ -425,7 +429,14 @@ class P2PConnection:
                 await asyncio.sleep(wait_time - time_diff)
 
         expected = payload.RESPONSE_TYPE if isinstance(payload, APCIRequest) else None
-        await self.send_data(payload)
-        response = await self._receive(expected)
+        if self._response_waiter.done():
+            # left over from a request that failed before consuming its response
+            self._response_waiter = asyncio.get_event_loop().create_future()
+        self._request_pending = True
+        try:
+            await self.send_data(payload)
+            response = await self._receive(expected)
+        finally:
+            self._request_pending = False
         self._last_response_time = time.time()
         return response
